@@ -220,7 +220,11 @@ pub fn run(ctx: &Ctx) -> i32 {
         let mut cl = crate::gen::Classes::default();
         let n_docs = *rng.pick(&[50usize, 300, 1500]);
         let o = GenOpts { max_depth: 3, max_width: 4, ..GenOpts::common() };
-        let (bytes, _) = corpus::valid_stream(f, n_docs, &mut rng, &mut feats, &mut cl, &o);
+        let (mut bytes, _) = corpus::valid_stream(f, n_docs, &mut rng, &mut feats, &mut cl, &o);
+        if f == Fmt::Yaml && i % 2 == 0 {
+            bytes = corpus::boundary_yaml_text(i / 6).into_bytes();
+            acc.count("class_boundary_straddling_yaml");
+        }
         if bytes.len() >= 2 << 20 {
             return;
         }
